@@ -15,3 +15,10 @@ CLAIMED["C05"] = (
     _TRUST + " Commands run one at a time; flags compared modulo \\Recent.",
     "DESIGN.md section 4 C05",
 )
+CLAIMED["C01"] = (
+    "exploration",
+    "property-based testing: Hypothesis-generated multi-session histories; oracle = replay of every session's own byte stream into a view (EXISTS/EXPUNGE/FETCH legality, UID binding, marker-STORE landing, equality with the reference list at sync points)",
+    "Generated cross-session histories with a black-box replay of each session's stream; each clause of the property is an executable invariant over that replay, and marker keywords make 'which message did sequence number n denote' exact.",
+    _TRUST + " Commands run one at a time here (in-flight concurrency is C10).",
+    "DESIGN.md section 4 C01",
+)
